@@ -416,6 +416,24 @@ def _drive_all(rows, n, r2, ctx, case):
             drive(obj, n, m, r2)
             if nm == 'Circuit' and r2.random() < 0.5:
                 # query - edit under the same labels - query again: answers must follow the object's current state
+                if r2.random() < 0.3:
+                    # a copy is taken and edited (outputs marked, an output gate renamed, a gate added); the original must go
+                    # on answering for the original function
+                    import copy as _copy
+                    with monitor.suspended():
+                        cp = _copy.copy(obj)
+                        outs_ = list(cp.outputs)
+                        if outs_:
+                            cp.mark_as_output(outs_[0])
+                            if not cp.has_gate('cp_renamed'):
+                                cp.rename_gate(outs_[-1], 'cp_renamed')
+                        some = list(cp.gates)
+                        if some and not cp.has_gate('cp_extra'):
+                            from cirbo.core.circuit import gate as _G
+                            cp.emplace_gate('cp_extra', _G.NOT, (some[0],))
+                            cp.mark_as_output('cp_extra')
+                    ctx.count('copy_edited_original_requeried')
+                    drive(obj, n, m, r2, light=True)
                 rows2 = repurpose(obj, n, rows, r2) if r2.random() < 0.6 else dup_rename(obj, n, rows, r2)
                 if rows2 is not None:
                     register(obj, n, rows2)
